@@ -5,7 +5,10 @@ Require Import MayV.Rt.TimerThread MayV.Rt.TimerThreadInv MayV.Rt.TimerThreadTac
 Open Scope N_scope.
 
 Lemma presB_tnow s x s' : InvB s -> stepF s x = Some s' -> tnow s' <= now s'.
-Proof. intros HB H. pose proof (B_tnow _ HB). step_cases H; cbn; lia. Qed.
+Proof.
+  intros HB H. pose proof (B_tnow _ HB). step_cases H; cbn; try lia.
+  all: apply andb_true_iff in Heqb as [_ E]; apply N.leb_le in E; exact E.
+Qed.
 
 (* what a step does to the lists: every entry of the new lists is an old one (up to its link flag),
    or the entry pushed by the stepping adder *)
